@@ -4,11 +4,81 @@ import Blue.Proofs.ScanSpec
 import Blue.Proofs.AsIsScan
 import Blue.Proofs.ScanCongr
 import Blue.Proofs.Stack
-/-! Property C03: the theorems the check builds and audits (spike inventory; the build phase
-    completes the list from DESIGN Appendix C.0). -/
-#print axioms Blue.Spec.scan_spec
+import Blue.Proofs.Kvs
+/-! # Property C03 — range scans return exactly the live keys in range, in order, matching reads
+
+Property theorems only.  The scan a store performs is the cursor stack
+`Bounds(Pruning(Merging[memtable, immutable memtable, level-0 files…, Concat(level files)…]))`.
+The combinators are modelled once, generically over a record of cursor operations (`Cur`), and
+each is proved *natural* in its children; `scan_spec` composes the per-combinator refinement
+theorems of C11 into the statement the property makes.  The correspondence check runs the
+right-hand side of `scan_spec` — a reference cursor over the live versions in range, computed from
+the *dumped* store state — against `KeyValueStore::range_scan` for seeded bounds and programs
+after every operation of every history.
+
+Hypotheses that remain visible: the children behave as sorted tables with pairwise distinct
+`(key, timestamp)` (`Family`; from C10/C11 for files and from the tree's invariants), and the
+scan is not opened in the window between version install and `imm = None` of a flush, where the
+immutable memtable and its file are both children (covered by the check only).  The composition
+as it was written before the repair (per-component pruning) violates the property:
+`scan_resurrects_deleted_key` (D-1). -/
+namespace Blue.Props.C03
+open Blue.Spec Blue.Cursor
+
+/-- **the scan shows exactly the live keys in range**, under every finite program of
+    `seek_to_first / seek_to_last / seek k / next / prev` -/
+theorem scan_spec {K : Type} [DecidableEq K] {klt : K → K → Bool} (st : StrictTotal klt)
+    (M : List (Ver K × Nat)) (k : Nat) (fam : Family (vlt klt) M k)
+    (t : Nat) (tomb : Ver K → Bool) (sb eb : Bound K) (n : Nat) (hn : (M.map (·.1)).length + 2 ≤ n)
+    (C : Cur (Ver K)) (cs : List C.σ) (rs : List (Ref (Ver K)))
+    (hkids : (rs.map (·.xs)).Perm ((List.range k).map (childList M)))
+    (hbeh : cs.map (behA (SeekAdm klt) C) = rs.map (behA (SeekAdm klt) (RefCur (Ver K)))) :
+    BehEq (SeekAdm klt)
+      (BoundsC.cur (PruningC.cur (MergingC.cur C (vlt klt)) (pcfg t tomb) n) (bcfg klt sb eb) n)
+      (BoundsC.new (PruningC.cur (MergingC.cur C (vlt klt)) (pcfg t tomb) n) (bcfg klt sb eb)
+        (PruningC.new (MergingC.cur C (vlt klt)) (MergingC.new C (vlt klt) cs)))
+      (RefCur (Ver K))
+      ⟨((M.map (·.1)).filter (isLive (M.map (·.1)) t tomb)).filter (inRange klt sb eb), 0⟩ :=
+  Blue.Spec.scan_spec st M k fam t tomb sb eb n hn C cs rs hkids hbeh
+
+/-- the list a scan shows depends only on the store's *set* of versions — so flush, trivial move
+    and non-GC compaction change no scan, at any timestamp and for all bounds -/
+theorem scan_depends_only_on_versions {K : Type} [DecidableEq K] {klt : K → K → Bool} (st : StrictTotal klt)
+    (M M' : List (Ver K)) (hs : Sorted klt M) (hs' : Sorted klt M') (hsame : ∀ e, e ∈ M ↔ e ∈ M')
+    (t : Nat) (tomb : Ver K → Bool) (sb eb : Bound K) :
+    (M.filter (isLive M t tomb)).filter (inRange klt sb eb)
+      = (M'.filter (isLive M' t tomb)).filter (inRange klt sb eb) :=
+  scan_list_congr st M M' hs hs' hsame t tomb sb eb
+
+/-- what `isLive` means: the entry a point read (`read_returns_latest`, C01) returns for its key;
+    a scan and a point read taken on the same state agree -/
+theorem live_is_visible {K : Type} [DecidableEq K] (M : List (Ver K)) (t : Nat) (tomb : Ver K → Bool) (e : Ver K)
+    (he : e ∈ M) (h : isLive M t tomb e = true) : IsVisible M e.1 t e ∧ tomb e = false := by
+  unfold isLive at h
+  simp only [Bool.and_eq_true, decide_eq_true_eq, List.all_eq_true, Bool.or_eq_true, Bool.not_eq_true',
+    Bool.and_eq_false_iff, decide_eq_false_iff_not, Bool.not_eq_true'] at h
+  obtain ⟨⟨h1, h2⟩, h3⟩ := h
+  refine ⟨⟨he, rfl, h1, ?_⟩, h3⟩
+  intro e' he' hk ht
+  rcases h2 e' he' with h | h
+  · rcases h with h | h
+    · exact absurd hk h
+    · exact absurd ht h
+  · exact h
+
+/-- D-1 as a theorem about the composition as it was written: pruning each component before the
+    merge lets a deleted key reappear; the repaired composition shows nothing -/
+theorem per_component_pruning_resurrects_deleted_key :
+    scanAsIs 5 [[(7, 2, true)], [(7, 1, false)]] = some (7, 1, false)
+      ∧ scanFixed 5 [[(7, 2, true)], [(7, 1, false)]] = none := scan_resurrects_deleted_key
+
+end Blue.Props.C03
+
+#print axioms Blue.Props.C03.scan_spec
+#print axioms Blue.Props.C03.scan_depends_only_on_versions
+#print axioms Blue.Props.C03.live_is_visible
+#print axioms Blue.Props.C03.per_component_pruning_resurrects_deleted_key
 #print axioms Blue.Cursor.scan_stack
-#print axioms Blue.Spec.scan_list_congr
 #print axioms Blue.Spec.sorted_ext
 #print axioms Blue.Cursor.level_over
 #print axioms Blue.Cursor.lazy_over
